@@ -61,6 +61,18 @@ def scrape():
         if not out:
             raise ScrapeError("blocks: no rows in " + name)
         return out
+    # --blocksz argument forms (src/bin/s4.rs cli_process_blocksz): prefix -> radix, in the order tested
+    s4 = read("src/bin/s4.rs")
+    m = re.search(r"fn cli_process_blocksz\(blockszs: &String\)(.*?)\n}\n", s4, flags=re.S)
+    if not m:
+        raise ScrapeError("blocks: cli_process_blocksz not found")
+    body = m.group(1)
+    forms = re.findall(r'blockszs\.starts_with\("(\w+)"\) \{\s*blocksz_ = match BlockSz::from_str_radix\(blockszs\.trim_start_matches\("(\w+)"\), (\d+)\)', body)
+    if not forms or any(a != b for a, b, _ in forms) or "blockszs.parse::<BlockSz>()" not in body \
+            or "std::cmp::max(BLOCKSZ_MIN, SyslogProcessor::BLOCKSZ_MIN)" not in body \
+            or "max_min <= blocksz_ && blocksz_ <= BLOCKSZ_MAX" not in body:
+        raise ScrapeError("blocks: cli_process_blocksz has a shape the model does not know")
+    t["BLOCKSZ_FORMS"] = [(a, int(r)) for a, _, r in forms]
     t["LINE_MIN"] = rows("BLOCKZERO_ANALYSIS_LINE_COUNT_MIN_MAP")
     t["SYSLINE_MIN"] = rows("BLOCKZERO_ANALYSIS_SYSLINE_COUNT_MIN_MAP")
     return t
@@ -77,5 +89,8 @@ def generate():
     for k in ("LINE_MIN", "SYSLINE_MIN"):
         L.append("(* (range start, range end (exclusive), minimum count) *)")
         L.append("Definition %s_map : list (N * N * N) := [%s]." % (k.lower(), "; ".join("(%d, %d, %d)" % r for r in t[k])))
+    L.append("(* --blocksz forms of cli_process_blocksz: (prefix bytes, radix), in the order tested; no prefix = decimal *)")
+    L.append("Definition blocksz_forms : list (list N * N) := [%s]." %
+             "; ".join("([%s], %d)" % ("; ".join(str(ord(c)) for c in a), r) for a, r in t["BLOCKSZ_FORMS"]))
     L.append("")
     return write_if_changed(os.path.join(GEN, "BlockConsts.v"), "\n".join(L))
